@@ -480,6 +480,9 @@ public_preserve_all = _public_preserve(skeletons.PRESERVE_TEMPLATES)
 # ---------------------------------------------------------------------------------------------------------------
 # shard planning
 OPTION_COMBOS = [(True, False, True), (True, True, True), (True, True, False), (False, True, True)]
+# the thorough tier crosses every skeleton and name length with two of these (default options, everything on);
+# the other two rotate in through the quick tier's seed
+THOROUGH_COMBOS = [(True, False, True), (True, True, True)]
 
 
 def plan(lib, tier, seed, quick_n, lengths_quick=(1, 3), lengths_thorough=(1, 3), combos_quick=None, extra=None, names='ABC',
@@ -496,7 +499,7 @@ def plan(lib, tier, seed, quick_n, lengths_quick=(1, 3), lengths_thorough=(1, 3)
         ks = sorted(ks[:quick_n])
         combos = combos_quick or [OPTION_COMBOS[0], OPTION_COMBOS[1]]
     else:
-        combos = combos_thorough or OPTION_COMBOS
+        combos = combos_thorough or THOROUGH_COMBOS
     shards = []
     for i, k in enumerate(ks):
         if tier == 'quick' and quick_all_lengths:
